@@ -232,3 +232,341 @@ Proof.
   destruct (mr_rows a (m0 :: md) inv (last (m0 :: md) 0) b (repeat 0 (length (m0 :: md)), false))
     as [[res carry]| | | |]; reflexivity.
 Qed.
+
+(* ====================== square_redc ====================== *)
+From RV.Proofs Require PfGenLimbs.
+
+Definition sq_cross_body (a : list Z) (i : Z)
+  : Z -> (list Z * Z * bool) -> outcome (list Z * Z * bool) :=
+  fun j t_12 => let '(result, carry_lo, carry_hi) := t_12 in
+    do t_7 <- idx a i ; do t_8 <- idx a j ; do t_9 <- idx result j ;
+    let '(value, next_carry_lo, next_carry_hi) := (g_carrying_double_mul_add t_7 t_8 t_9 carry_lo carry_hi) in
+    let t_10 := value in do _ <- idx result j ; let result := upd result j t_10 in
+    let carry_lo := next_carry_lo in
+    let carry_hi := next_carry_hi in
+    Val (result, carry_lo, carry_hi).
+
+Definition sq_reduce_body (modulus : list Z) (m : Z)
+  : Z -> (list Z * Z) -> outcome (list Z * Z) :=
+  fun j t_21 => let '(result, carry) := t_21 in
+    do t_16 <- idx modulus j ; do t_17 <- idx result j ;
+    let '(value, next_carry) := (g_carrying_mul_add t_16 m t_17 carry) in
+    let t_19 := value in do t_18 <- chk64 (j - 1) ; do _ <- idx result t_18 ; let result := upd result t_18 t_19 in
+    let carry := next_carry in
+    Val (result, carry).
+
+Definition sq_row_body (N : Z) (a modulus : list Z) (inv : Z)
+  : Z -> (list Z * Z) -> outcome (list Z * Z) :=
+  fun i t_30 => let '(result, carry_outer) := t_30 in
+    do t_2 <- idx a i ; do t_3 <- idx a i ; do t_4 <- idx result i ;
+    let '(value, carry_lo) := (g_carrying_mul_add t_2 t_3 t_4 0) in
+    let carry_hi := false in
+    let t_5 := value in do _ <- idx result i ; let result := upd result i t_5 in
+    do t_6 <- chk64 (i + 1) ;
+    do t_11 <- for_range t_6 N (result, carry_lo, carry_hi) (sq_cross_body a i) ;
+    let '(result, carry_lo, carry_hi) := t_11 in
+    do t_13 <- idx result 0 ; let m := (wrap (t_13 * inv)) in
+    do t_14 <- idx modulus 0 ; do t_15 <- idx result 0 ;
+    let '(value, carry) := (g_carrying_mul_add m t_14 t_15 0) in
+    if negb (value =? 0) then DebugPanic else
+    do t_20 <- for_range 1 N (result, carry) (sq_reduce_body modulus m) ;
+    let '(result, carry) := t_20 in
+    do t_22 <- chk64 (N - 1) ; do t_23 <- idx modulus t_22 ;
+    do t_28 <- (if (4611686018427387903 <=? t_23) then (
+        let wide := (wrap128 (((wrap128 (((wrap128 (carry_outer + carry_lo))) + ((shl128 ((b2z carry_hi)) 64))))) + carry)) in
+        let t_25 := (wrap wide) in do t_24 <- chk64 (N - 1) ; do _ <- idx result t_24 ; let result := upd result t_24 t_25 in
+        let carry_outer := (wrap ((shr128 wide 64))) in
+        if negb ((carry_outer <=? 2)) then DebugPanic else
+        Val (result, carry_outer))
+      else ( if negb ((negb carry_hi)) then DebugPanic else
+        if negb (carry_outer =? 0) then DebugPanic else
+        let '(value, carry) := (ov_add carry_lo carry) in
+        if negb ((negb carry)) then DebugPanic else
+        let t_27 := value in do t_26 <- chk64 (N - 1) ; do _ <- idx result t_26 ; let result := upd result t_26 t_27 in
+        Val (result, carry_outer))) ;
+    let '(result, carry_outer) := t_28 in
+    Val (result, carry_outer).
+
+Lemma g_square_redc_unfold N a modulus inv :
+  g_square_redc N a modulus inv =
+  (do t_1 <- idx modulus 0 ; if negb (((wrap (inv * t_1))) =? ((B - 1))) then DebugPanic else
+   if negb (match (Add.limbs_cmp a modulus), Lt with Lt, Lt | Eq, Eq | Gt, Gt => true | _, _ => false end) then DebugPanic else
+   do t_29 <- for_range 0 N (repeat 0 (Z.to_nat N), 0) (sq_row_body N a modulus inv) ;
+   let '(result, carry_outer) := t_29 in
+   if negb ((carry_outer <=? 1)) then DebugPanic else
+   Val (Redc.reduce1_carry result modulus ((0 <? carry_outer)))).
+Proof. reflexivity. Qed.
+
+Lemma sq_reduce_length md : forall res m c, length md = length res ->
+  length (fst (sq_reduce md res m c)) = length md.
+Proof.
+  induction md as [|mj md IH]; intros res m c H; [reflexivity|].
+  destruct res as [|rj res]; [discriminate|]. cbn [sq_reduce].
+  destruct (carrying_mul_add mj m rj c) as [v c'].
+  specialize (IH res m c' ltac:(cbn in H; lia)).
+  destruct (sq_reduce md res m c') as [l cf]. cbn [fst length] in *. lia.
+Qed.
+
+(* `for j in 1..N { .. result[j - 1] = value }` : reads index j, overwrites index j-1 *)
+Lemma sq_reduce_loop m md : forall res pm l x c,
+  length md = length res -> length pm = S (length l) -> Z.of_nat (length l + length md) < B ->
+  for_loop (length md) (Z.of_nat (S (length l))) (l ++ x :: res, c) (sq_reduce_body (pm ++ md) m)
+  = Val (l ++ fst (sq_reduce md res m c) ++ [last (x :: res) 0], snd (sq_reduce md res m c)).
+Proof.
+  induction md as [|mj md IH]; intros res pm l x c Hr Hpm Hlen.
+  - destruct res; [|discriminate]. reflexivity.
+  - destruct res as [|rj res]; [discriminate|]. cbn [length] in *. cbn [for_loop sq_reduce].
+    unfold sq_reduce_body at 1. cbv beta iota.
+    rewrite (idx_app_at pm mj md) by lia. cbn [obind].
+    replace (l ++ x :: rj :: res) with ((l ++ [x]) ++ rj :: res) by (rewrite <- app_assoc; reflexivity).
+    rewrite (idx_app_at (l ++ [x]) rj res) by (rewrite app_length; cbn [length]; lia). cbn [obind].
+    rewrite g_carrying_mul_add_eq.
+    destruct (carrying_mul_add mj m rj c) as [v c'].
+    rewrite chk64_ok by lia. cbn [obind].
+    rewrite <- app_assoc. cbn [app].
+    rewrite (idx_app_at l x (rj :: res)) by lia. cbn [obind].
+    rewrite (upd_app_at l x (rj :: res)) by lia.
+    replace (l ++ v :: rj :: res) with ((l ++ [v]) ++ rj :: res) by (rewrite <- app_assoc; reflexivity).
+    replace (pm ++ mj :: md) with ((pm ++ [mj]) ++ md) by (rewrite <- app_assoc; reflexivity).
+    replace (Z.of_nat (S (length l)) + 1) with (Z.of_nat (S (length (l ++ [v]))))
+      by (rewrite app_length; cbn [length]; lia).
+    rewrite (IH res (pm ++ [mj]) (l ++ [v]) rj c' ltac:(lia)
+               ltac:(rewrite !app_length; cbn [length]; lia) ltac:(rewrite app_length; cbn [length]; lia)).
+    destruct (sq_reduce md res m c') as [l' cf]. cbn [fst snd].
+    rewrite <- !app_assoc. cbn [app]. reflexivity.
+Qed.
+
+(* `for j in (i + 1)..N` : the cross terms, touching only index j *)
+Definition sq_cross_step (a : list Z) (ai : Z) (k : nat) (x : Z) (s : Z * bool) : Z * (Z * bool) :=
+  let '(v, clo, chi) := carrying_double_mul_add ai (nth k a 0) x (fst s) (snd s) in (v, (clo, chi)).
+
+Lemma sq_cross_iloop a ai l : forall k clo chi, (k + length l <= length a)%nat ->
+  PfGenLimbs.iloop (Z * bool) (sq_cross_step a ai) k l (clo, chi)
+  = (let '(l', clo', chi') := sq_cross ai (skipn k a) l clo chi in (l', (clo', chi'))).
+Proof.
+  induction l as [|x l IH]; intros k clo chi H.
+  - cbn [PfGenLimbs.iloop sq_cross]. destruct (skipn k a); reflexivity.
+  - cbn [length] in H. rewrite PfGenLimbs.skipn_nth_cons by lia. cbn [PfGenLimbs.iloop sq_cross].
+    change (sq_cross_step a ai k x (clo, chi))
+      with (let '(v, clo', chi') := carrying_double_mul_add ai (nth k a 0) x clo chi in (v, (clo', chi'))).
+    destruct (carrying_double_mul_add ai (nth k a 0) x clo chi) as [[v clo'] chi'].
+    rewrite (IH (S k)) by lia.
+    destruct (sq_cross ai (skipn (S k) a) l clo' chi') as [[l' c1] c2]. reflexivity.
+Qed.
+
+Lemma sq_cross_loop a i ai pre post clo chi :
+  idx a i = Val ai -> (length pre + length post <= length a)%nat ->
+  for_loop (length post) (Z.of_nat (length pre)) (pre ++ post, clo, chi) (sq_cross_body a i)
+  = (let '(l', clo', chi') := sq_cross ai (skipn (length pre) a) post clo chi in Val (pre ++ l', clo', chi')).
+Proof.
+  intros Hai Hlen.
+  pose proof (PfGenLimbs.idx_loop (list Z * Z * bool) (Z * bool) (fun l s => (l, fst s, snd s))
+                (sq_cross_step a ai) (fun _ => True) (fun _ => True) (length a) (sq_cross_body a i)) as L.
+  destruct (L ltac:(
+    intros pre0 x post0 s Hk _ _; unfold sq_cross_body; cbv beta iota;
+    rewrite Hai; cbn [obind]; rewrite PfGenLimbs.idx_nth by exact Hk; cbn [obind];
+    rewrite idx_app_mid; cbn [obind]; rewrite g_carrying_double_mul_add_eq;
+    unfold sq_cross_step;
+    destruct (carrying_double_mul_add ai (nth (length pre0) a 0) x (fst s) (snd s)) as [[v c1] c2];
+    cbv beta iota; rewrite ?idx_app_mid; cbn [obind fst snd]; rewrite upd_app_mid; split; [reflexivity | exact I])
+    post pre (clo, chi) Hlen I ltac:(apply Forall_forall; intros; exact I)) as [E _].
+  cbn [fst snd] in E. rewrite E. rewrite sq_cross_iloop by exact Hlen.
+  destruct (sq_cross ai (skipn (length pre) a) post clo chi) as [[l' c1] c2]. reflexivity.
+Qed.
+
+Lemma shl128_b2z chi : shl128 (b2z chi) 64 = w128 (b2z chi * B).
+Proof. rewrite w128_spec. unfold shl128. rewrite <- B_pow. reflexivity. Qed.
+Lemma wrap128_w128 x : wrap128 x = w128 x.
+Proof. rewrite w128_spec. reflexivity. Qed.
+Lemma wrap_shr_hi64 x : wrap (shr128 x 64) = hi64 x.
+Proof. rewrite hi64_spec. unfold wrap, shr128. rewrite <- B_pow. reflexivity. Qed.
+
+Lemma split_at (l : list Z) i : (i < length l)%nat ->
+  exists x post, l = firstn i l ++ x :: post /\ skipn i l = x :: post /\ length (firstn i l) = i.
+Proof.
+  intros H. destruct (skipn i l) as [|x post] eqn:E.
+  - assert (length (skipn i l) = 0%nat) by (rewrite E; reflexivity). rewrite skipn_length in H0. lia.
+  - exists x, post. split; [|split].
+    + rewrite <- E. symmetry. apply firstn_skipn.
+    + reflexivity.
+    + apply firstn_length_le. lia.
+Qed.
+
+Lemma idx_last_md (md : list Z) : md <> [] -> idx md (Z.of_nat (length md) - 1) = Val (last md 0).
+Proof.
+  intros H. destruct (exists_last H) as (md' & ml & E). rewrite E, last_app_single.
+  apply idx_app_at. rewrite app_length. cbn [length]. lia.
+Qed.
+
+(* one iteration of `for i in 0..N` = Redc.sq_row *)
+Lemma sq_row_body_eq N a md inv i res co :
+  N = Z.of_nat (length a) -> N < B -> length md = length a -> length res = length a ->
+  (i < length a)%nat ->
+  sq_row_body N a md inv (Z.of_nat i) (res, co) = sq_row i a md inv (last md 0) (res, co).
+Proof.
+  intros HN HB Hm Hr Hi.
+  destruct (split_at a i Hi) as (ai & a' & Ea & Esa & Hla).
+  destruct (split_at res i ltac:(lia)) as (ri & post & Er & Esr & Hlr).
+  assert (Hpost : length post = (length a - i - 1)%nat).
+  { assert (length res = length (firstn i res ++ ri :: post)) by (rewrite <- Er; reflexivity).
+    rewrite app_length in H. cbn [length] in H. lia. }
+  assert (Ha' : length a' = (length a - i - 1)%nat).
+  { assert (length a = length (firstn i a ++ ai :: a')) by (rewrite <- Ea; reflexivity).
+    rewrite app_length in H. cbn [length] in H. lia. }
+  unfold sq_row_body, sq_row. rewrite Esa, Esr. cbv beta iota zeta.
+  assert (Hai : idx a (Z.of_nat i) = Val ai) by (rewrite Ea; apply idx_app_at; lia).
+  rewrite Hai. cbn [obind].
+  assert (Hri : idx res (Z.of_nat i) = Val ri) by (rewrite Er; apply idx_app_at; lia).
+  rewrite Hri. cbn [obind].
+  rewrite g_carrying_mul_add_eq.
+  destruct (carrying_mul_add ai ai ri 0) as [value carry_lo].
+  assert (Hupd : upd res (Z.of_nat i) value = firstn i res ++ value :: post).
+  { rewrite <- (upd_app_at (firstn i res) ri post (Z.of_nat i) value) by lia. rewrite <- Er. reflexivity. }
+  rewrite Hupd.
+  rewrite chk64_ok by lia. cbn [obind].
+  unfold for_range at 1.
+  replace (Z.to_nat (N - (Z.of_nat i + 1))) with (length post) by lia.
+  replace (firstn i res ++ value :: post) with ((firstn i res ++ [value]) ++ post)
+    by (rewrite <- app_assoc; reflexivity).
+  replace (Z.of_nat i + 1) with (Z.of_nat (length (firstn i res ++ [value])))
+    by (rewrite app_length; cbn [length]; lia).
+  rewrite (sq_cross_loop a (Z.of_nat i) ai (firstn i res ++ [value]) post carry_lo false Hai
+             ltac:(rewrite app_length; cbn [length]; lia)).
+  replace (length (firstn i res ++ [value])) with (S i) by (rewrite app_length; cbn [length]; lia).
+  replace (skipn (S i) a) with a'.
+  2:{ rewrite Ea at 1. replace (S i) with (length (firstn i a ++ [ai])) by (rewrite app_length; cbn [length]; lia).
+      replace (firstn i a ++ ai :: a') with ((firstn i a ++ [ai]) ++ a') by (rewrite <- app_assoc; reflexivity).
+      rewrite skipn_app, skipn_all, Nat.sub_diag. reflexivity. }
+  destruct (sq_cross ai a' post carry_lo false) as [[post' clo] chi] eqn:Ec. cbn [obind].
+  rewrite <- app_assoc. cbn [app].
+  assert (Hlp : length post' = length post).
+  { clear - Ec Ha' Hpost. revert post post' carry_lo clo chi Ec Hpost. generalize false.
+    assert (G : forall a' (b0 : bool) post post' c0 clo chi, sq_cross ai a' post c0 b0 = (post', clo, chi) ->
+                (length post <= length a')%nat -> length post' = length post).
+    { induction a'0 as [|aj a'' IH]; intros b0 post post' c0 clo chi E Hl.
+      - destruct post; [|cbn in Hl; lia]. cbn in E. injection E as <- _ _. reflexivity.
+      - destruct post as [|rj post]; [cbn in E; injection E as <- _ _; reflexivity|].
+        cbn [sq_cross] in E. destruct (carrying_double_mul_add ai aj rj c0 b0) as [[v c1] c2].
+        destruct (sq_cross ai a'' post c1 c2) as [[l x] y] eqn:E'. injection E as <- _ _.
+        cbn [length]. f_equal. apply (IH c2 post l c1 x y E'). cbn in Hl. lia. }
+    intros b0 post post' c0 clo chi E Hp. apply (G a' b0 post post' c0 clo chi E). lia. }
+  destruct md as [|m0 mdrest]; [cbn in Hm; lia|].
+  destruct (firstn i res ++ value :: post') as [|r0 rest] eqn:Eres1.
+  { destruct (firstn i res); discriminate. }
+  assert (Hrest : length rest = length mdrest).
+  { assert (length (r0 :: rest) = length (firstn i res ++ value :: post')) by (rewrite Eres1; reflexivity).
+    rewrite app_length in H. cbn [length] in *. lia. }
+  change (idx (r0 :: rest) 0) with (Val r0 : outcome Z). cbn [obind].
+  change (idx (m0 :: mdrest) 0) with (Val m0 : outcome Z). cbn [obind].
+  rewrite g_carrying_mul_add_eq, wrap_w64.
+  destruct (carrying_mul_add (w64 (r0 * inv)) m0 r0 0) as [v carry].
+  destruct (v =? 0); cbn [negb]; [|reflexivity].
+  unfold for_range. replace (Z.to_nat (N - 1)) with (length mdrest) by (cbn [length] in Hm; lia).
+  change 1 with (Z.of_nat (S (length (@nil Z)))) at 1.
+  change (r0 :: rest) with ([] ++ r0 :: rest) at 1.
+  change (m0 :: mdrest) with ([m0] ++ mdrest) at 1.
+  rewrite (sq_reduce_loop (w64 (r0 * inv)) mdrest rest [m0] [] r0 carry ltac:(lia) eq_refl
+             ltac:(cbn [length] in *; lia)).
+  cbn [obind app].
+  pose proof (sq_reduce_length mdrest rest (w64 (r0 * inv)) carry ltac:(lia)) as Hl.
+  destruct (sq_reduce mdrest rest (w64 (r0 * inv)) carry) as [l cf]. cbn [fst snd] in *.
+  rewrite chk64_ok by (cbn [length] in Hm; lia). cbn [obind].
+  replace (N - 1) with (Z.of_nat (length (m0 :: mdrest)) - 1) by lia.
+  rewrite idx_last_md by discriminate. cbn [obind].
+  change 4611686018427387903 with SQUARE_THRESHOLD.
+  replace (Z.of_nat (length (m0 :: mdrest)) - 1) with (Z.of_nat (length l)) by (cbn [length] in *; lia).
+  destruct (SQUARE_THRESHOLD <=? last (m0 :: mdrest) 0).
+  - cbv zeta. rewrite !wrap128_w128, shl128_b2z, !wrap_shr_hi64, !wrap_w64.
+    rewrite ?chk64_ok by (cbn [length] in *; lia). cbn [obind].
+    rewrite idx_app_mid. cbn [obind]. rewrite upd_last_elem.
+    set (wide := w128 (w128 (w128 (co + clo) + w128 (b2z chi * B)) + cf)).
+    destruct (Z.leb_spec (hi64 wide) 2); destruct (Z.ltb_spec 2 (hi64 wide)); try lia; reflexivity.
+  - destruct chi; cbn [negb]; [reflexivity|].
+    destruct (co =? 0); cbn [negb]; [|reflexivity].
+    destruct (ov_add clo cf) as [value2 c]. destruct c; cbn [negb]; [reflexivity|].
+    rewrite ?chk64_ok by (cbn [length] in *; lia). cbn [obind].
+    rewrite idx_app_mid. cbn [obind]. rewrite upd_last_elem. reflexivity.
+Qed.
+
+Lemma sq_cross_length ai a' : forall (b0 : bool) post post' c0 clo chi,
+  sq_cross ai a' post c0 b0 = (post', clo, chi) -> (length post <= length a')%nat ->
+  length post' = length post.
+Proof.
+  induction a' as [|aj a'' IH]; intros b0 post post' c0 clo chi E Hl.
+  - destruct post; [|cbn in Hl; lia]. cbn in E. injection E as <- _ _. reflexivity.
+  - destruct post as [|rj post]; [cbn in E; injection E as <- _ _; reflexivity|].
+    cbn [sq_cross] in E. destruct (carrying_double_mul_add ai aj rj c0 b0) as [[v c1] c2].
+    destruct (sq_cross ai a'' post c1 c2) as [[l x] y] eqn:E'. injection E as <- _ _.
+    cbn [length]. f_equal. apply (IH c2 post l c1 x y E'). cbn in Hl. lia.
+Qed.
+
+Lemma sq_row_length i a md inv top res co res' co' :
+  length md = length a -> length res = length a -> (i < length a)%nat ->
+  sq_row i a md inv top (res, co) = Val (res', co') -> length res' = length a.
+Proof.
+  intros Hm Hr Hi E. unfold sq_row in E.
+  destruct (split_at a i Hi) as (ai & a' & Ea & Esa & Hla).
+  destruct (split_at res i ltac:(lia)) as (ri & post & Er & Esr & Hlr).
+  assert (Hpost : length post = (length a - i - 1)%nat).
+  { assert (length res = length (firstn i res ++ ri :: post)) by (rewrite <- Er; reflexivity).
+    rewrite app_length in H. cbn [length] in H. lia. }
+  assert (Ha' : length a' = (length a - i - 1)%nat).
+  { assert (length a = length (firstn i a ++ ai :: a')) by (rewrite <- Ea; reflexivity).
+    rewrite app_length in H. cbn [length] in H. lia. }
+  rewrite Esa, Esr in E.
+  destruct (carrying_mul_add ai ai ri 0) as [value carry_lo].
+  destruct (sq_cross ai a' post carry_lo false) as [[post' clo] chi] eqn:Ec.
+  pose proof (sq_cross_length ai a' false post post' carry_lo clo chi Ec ltac:(lia)) as Hlp.
+  destruct (firstn i res ++ value :: post') as [|r0 rest] eqn:Eres1; [discriminate|].
+  destruct md as [|m0 mdrest]; [discriminate|].
+  assert (Hrest : length rest = length mdrest).
+  { assert (length (r0 :: rest) = length (firstn i res ++ value :: post')) by (rewrite Eres1; reflexivity).
+    rewrite app_length in H. cbn [length] in *. lia. }
+  destruct (carrying_mul_add (w64 (r0 * inv)) m0 r0 0) as [v carry].
+  destruct (negb (v =? 0)); [discriminate|].
+  pose proof (sq_reduce_length mdrest rest (w64 (r0 * inv)) carry ltac:(lia)) as Hl.
+  destruct (sq_reduce mdrest rest (w64 (r0 * inv)) carry) as [l cf]. cbn [fst] in Hl.
+  destruct (SQUARE_THRESHOLD <=? top).
+  - destruct (2 <? hi64 _); [discriminate|]. injection E as <- _.
+    rewrite app_length. cbn [length] in *. lia.
+  - destruct chi; [discriminate|]. destruct (negb (co =? 0)); [discriminate|].
+    destruct (ov_add clo cf) as [v2 c]. destruct c; [discriminate|]. injection E as <- _.
+    rewrite app_length. cbn [length] in *. lia.
+Qed.
+
+(* the row loop `for i in 0..N` = Redc.sq_rows *)
+Lemma sq_rows_loop N a md inv k : forall i res co,
+  N = Z.of_nat (length a) -> N < B -> length md = length a -> length res = length a ->
+  (i + k = length a)%nat ->
+  for_loop k (Z.of_nat i) (res, co) (sq_row_body N a md inv)
+  = sq_rows k i a md inv (last md 0) (res, co).
+Proof.
+  induction k as [|k IH]; intros i res co HN HB Hm Hr Hik; [reflexivity|].
+  cbn [for_loop sq_rows].
+  rewrite (sq_row_body_eq N a md inv i res co HN HB Hm Hr ltac:(lia)).
+  destruct (sq_row i a md inv (last md 0) (res, co)) as [[res' co']| | | |] eqn:Er; cbn [obind]; try reflexivity.
+  pose proof (sq_row_length i a md inv (last md 0) res co res' co' Hm Hr ltac:(lia) Er) as Hr'.
+  replace (Z.of_nat i + 1) with (Z.of_nat (S i)) by lia.
+  apply IH; auto. lia.
+Qed.
+
+Theorem g_square_redc_eq N a md inv :
+  (1 <= length a)%nat -> N = Z.of_nat (length a) -> N < B -> length md = length a ->
+  g_square_redc N a md inv = Redc.square_redc a md inv.
+Proof.
+  intros Hn HN HB Hm. rewrite g_square_redc_unfold. unfold Redc.square_redc.
+  destruct md as [|m0 md]; [cbn in Hm; lia|].
+  change (idx (m0 :: md) 0) with (Val m0 : outcome Z). cbn [obind].
+  rewrite wrap_w64.
+  destruct (w64 (inv * m0) =? B - 1); cbn [negb]; [|reflexivity].
+  unfold is_less.
+  destruct (limbs_cmp a (m0 :: md)); cbn [negb]; try reflexivity.
+  unfold for_range. replace (Z.to_nat (N - 0)) with (length (m0 :: md)) by lia.
+  replace (Z.to_nat N) with (length (m0 :: md)) by lia.
+  pose proof (sq_rows_loop N a (m0 :: md) inv (length (m0 :: md)) 0 (repeat 0 (length (m0 :: md))) 0 HN HB Hm
+             ltac:(rewrite repeat_length; exact Hm) ltac:(lia)) as E.
+  change (Z.of_nat 0) with 0 in E. rewrite E.
+  destruct (sq_rows (length (m0 :: md)) 0 a (m0 :: md) inv (last (m0 :: md) 0) (repeat 0 (length (m0 :: md)), 0))
+    as [[res co]| | | |]; cbn [obind]; try reflexivity.
+  destruct (Z.leb_spec co 1); destruct (Z.ltb_spec 1 co); try lia; reflexivity.
+Qed.
